@@ -157,6 +157,52 @@ static void hb_put(hbuf_t *b, const void *src, size_t len) {
 }
 static uint64_t hb_hash(const hbuf_t *b) { uint64_t h = 1469598103934665603ULL; for (size_t i = 0; i < b->n; i++) { h ^= b->p[i]; h *= 1099511628211ULL; } return h; }
 
+/* ---- allocator state of a factoring call (C07 / C08: SamePattern_SameRowPerm re-adopts the storage) --------
+ * Sampled from the harness side of hook H2, as families storage / workspace do (storage_util.h): on entry of
+ * the call ("in": what the previous factorization left in Glu), at the first pivot call ("first": what
+ * [sdcz]LUMemInit made of it; a refactorization cannot have grown an array before its first pivot, because the
+ * first column / relaxed supernode has the structure it had in the previous factorization), and after the
+ * call returned ("out").  One record = HM_W longs:
+ *   0 MemModel == USER   1 Glu->n   2 stack.used  3 stack.top1  4 stack.top2  5 stack.size
+ *   6..9  lusup, ucol, lsub, usub: byte offset from stack.array (USER) / 1 when the pointer is the one seen on
+ *         entry of this call, else 0 (SYSTEM; addresses themselves are not emitted: they differ from run to run)
+ *   10 nzlumax  11 nzumax  12 nzlmax  13 num_expansions
+ *   14..17 expanders[LUSUP, UCOL, LSUB, USUB].size (-1 once Glu->expanders has been released)
+ *   18 address of stack.array modulo 8 (USER)   19 end of the five pointer arrays = (char*)(xusub + n + 1) - stack.array (USER) */
+#define HM_W 20
+typedef void (*hm_hook_t)(int, int, int, double, int, int, int, int, const int_t *, const void *, int);
+extern void (*slu_verif_pivot_hook)(int phase, int dtype, int jcol, double u, int usepr, int pivrow, int diagind,
+                                    int ncand, const int_t *rows, const void *vals, int info);
+static const GlobalLU_t *hm_glu; static const void *hm_in_ptr[4]; static long hm_first[HM_W]; static int hm_have_first; static hm_hook_t hm_inner;
+static void hm_sample(const GlobalLU_t *G, long *t) {
+    const void *p[4] = { G->lusup, G->ucol, G->lsub, G->usub };
+    int user = (G->MemModel == USER);
+    const char *base = user ? (const char *)G->stack.array : NULL;
+    memset(t, 0, sizeof(long) * HM_W);
+    t[0] = user; t[1] = G->n;
+    if (user) { t[2] = (long)G->stack.used; t[3] = (long)G->stack.top1; t[4] = (long)G->stack.top2; t[5] = (long)G->stack.size; }
+    for (int i = 0; i < 4; i++) t[6 + i] = user ? (base && p[i] ? (long)((const char *)p[i] - base) : -1) : (p[i] != NULL && p[i] == hm_in_ptr[i]);
+    t[10] = (long)G->nzlumax; t[11] = (long)G->nzumax; t[12] = (long)G->nzlmax; t[13] = G->num_expansions;
+    for (int i = 0; i < 4; i++) t[14 + i] = G->expanders ? (long)G->expanders[i].size : -1;    /* MemType order: LUSUP, UCOL, LSUB, USUB */
+    t[18] = user ? (long)((uintptr_t)base & 7) : 0;
+    t[19] = (user && base && G->xusub) ? (long)((const char *)(G->xusub + (G->n + 1)) - base) : -1;
+}
+static void hm_hook(int phase, int dtype, int jcol, double u, int usepr, int pivrow, int diagind, int ncand,
+                    const int_t *rows, const void *vals, int info) {
+    if (phase == 0 && hm_glu && !hm_have_first) { hm_sample(hm_glu, hm_first); hm_have_first = 1; }
+    if (hm_inner) hm_inner(phase, dtype, jcol, u, usepr, pivrow, diagind, ncand, rows, vals, info);
+}
+/* call after ev_start(): the event recorder stays in place behind the sampler */
+static void hm_start(const GlobalLU_t *G, long *in) {
+    hm_in_ptr[0] = G->lusup; hm_in_ptr[1] = G->ucol; hm_in_ptr[2] = G->lsub; hm_in_ptr[3] = G->usub;
+    hm_sample(G, in);
+    hm_glu = G; hm_have_first = 0; hm_inner = slu_verif_pivot_hook; slu_verif_pivot_hook = hm_hook;
+}
+static void hm_stop(void) { hm_glu = NULL; hm_inner = NULL; }
+static void hm_emit(FILE *f, const char *name, const long *t) {
+    fprintf(f, "i %s %d", name, HM_W); for (int i = 0; i < HM_W; i++) fprintf(f, " %ld", t[i]); fputc('\n', f);
+}
+
 #define FAMILY_INC "fam_history.inc"
 #include "all_prec.h"
 void fam_history(ctx_t *c) {
